@@ -23,7 +23,7 @@ def one(sid):
         if pr.returncode != 0:
             return sid, "PATCH-FAILED " + pr.stdout[:200]
         out = {}
-        targets = [p for p in (props if allp else [meta["property"]]) if os.path.exists(os.path.join(V, "sa", "rules", p.lower() + ".py"))]
+        targets = [p for p in (props if allp else (meta.get("checked_by") or [meta["property"]])) if os.path.exists(os.path.join(V, "sa", "rules", p.lower() + ".py"))]
         for p in targets:
             r = subprocess.run([sys.executable, os.path.join(V, "check"), p, "--repo", d, "--json", "--no-evidence"], capture_output=True, text=True)
             if r.returncode == 2:
